@@ -18,6 +18,7 @@ import (
 	"path/filepath"
 	"strings"
 	"sync"
+	"time"
 
 	"github.com/oklog/ulid/v2"
 	parser "github.com/openfga/language/pkg/go/transformer"
@@ -62,9 +63,20 @@ type FaultCtl struct {
 	count    int
 	FailAt   int  // 1-based; 0 = never
 	BadConn  bool // fail with driver.ErrBadConn instead of a plain error
+	Flavour  int  // FlavCancel: cancel the request context after statement FailAt-1; FlavBusy: COMMIT fails with SQLITE_BUSY
+	Cancel   context.CancelFunc
 	Trace    []string
 	Snapshot func(k int) // called before statement k executes (k 1-based)
 }
+
+// Fault flavours (Op.Flav).
+const (
+	FlavPlain          = 0 // statement Fault fails with a plain error (or ErrBadConn with Op.BadConn)
+	FlavCancel         = 2 // the request context is cancelled after statement Fault-1 (database/sql rolls back by itself)
+	FlavBusy           = 3 // statement Fault, if it is COMMIT, fails with a genuine SQLITE_BUSY error (busyRetry retries it)
+	FlavConflictDelete = 4 // command layer over a datastore whose Write returns ErrWriteConflictOnDelete without applying
+	FlavConflictInsert = 5 // ... ErrWriteConflictOnInsert
+)
 
 var ErrInjected = errors.New("verif: injected statement failure")
 
@@ -72,6 +84,64 @@ func (c *FaultCtl) Arm(failAt int, badConn bool, snap func(int)) {
 	c.mu.Lock()
 	defer c.mu.Unlock()
 	c.armed, c.count, c.FailAt, c.BadConn, c.Trace, c.Snapshot = true, 0, failAt, badConn, nil, snap
+	c.Flavour, c.Cancel = FlavPlain, nil
+}
+
+// ArmFlavour is Arm with a fault flavour (and the cancel function of the request's context).
+func (c *FaultCtl) ArmFlavour(failAt int, badConn bool, flavour int, cancel context.CancelFunc, snap func(int)) {
+	c.Arm(failAt, badConn, snap)
+	c.mu.Lock()
+	c.Flavour, c.Cancel = flavour, cancel
+	c.mu.Unlock()
+}
+
+// after is called when a statement was executed by the engine: with FlavCancel the request
+// context is cancelled once statement FailAt-1 is done, and database/sql is given a moment to
+// roll the transaction back on its own.
+func (c *FaultCtl) after() {
+	c.mu.Lock()
+	fire := c.armed && c.Flavour == FlavCancel && c.Cancel != nil && c.count == c.FailAt-1
+	cancel := c.Cancel
+	c.mu.Unlock()
+	if fire {
+		cancel()
+		time.Sleep(4 * time.Millisecond)
+	}
+}
+
+var (
+	busyOnce sync.Once
+	busyErr  error
+)
+
+// BusyError provokes (once) a genuine SQLITE_BUSY error from the real driver: two connections
+// with busy_timeout(0) and immediate transactions on a scratch database.
+func BusyError() error {
+	busyOnce.Do(func() {
+		initTemplate()
+		p := filepath.Join(Root, "busy.db")
+		if err := copyFile(tmplPath, p); err != nil {
+			return
+		}
+		dsn := "file:" + p + "?_pragma=busy_timeout(0)&_txlock=immediate"
+		db1, err := sql.Open("sqlite", dsn)
+		if err != nil {
+			return
+		}
+		defer db1.Close()
+		db2, err := sql.Open("sqlite", dsn)
+		if err != nil {
+			return
+		}
+		defer db2.Close()
+		tx1, err := db1.Begin()
+		if err != nil {
+			return
+		}
+		defer func() { _ = tx1.Rollback() }()
+		_, busyErr = db2.Begin()
+	})
+	return busyErr
 }
 
 // Disarm returns the trace of statement kinds seen while armed.
@@ -94,13 +164,19 @@ func (c *FaultCtl) before(kind string) error {
 	k := c.count
 	c.Trace = append(c.Trace, kind)
 	snap := c.Snapshot
-	fail := c.FailAt == k
+	fail := c.FailAt == k && c.Flavour != FlavCancel
 	bad := c.BadConn
+	busy := c.Flavour == FlavBusy && kind == "commit"
 	c.mu.Unlock()
 	if snap != nil {
 		snap(k)
 	}
 	if fail {
+		if busy {
+			if e := BusyError(); e != nil {
+				return e
+			}
+		}
 		if bad {
 			return driver.ErrBadConn
 		}
@@ -161,6 +237,7 @@ func (c *faultConn) BeginTx(ctx context.Context, opts driver.TxOptions) (driver.
 	if err != nil {
 		return nil, err
 	}
+	c.ctl.after()
 	return &faultTx{Tx: tx, ctl: c.ctl}, nil
 }
 
@@ -172,7 +249,11 @@ func (c *faultConn) ExecContext(ctx context.Context, query string, args []driver
 	if err := c.ctl.before(stmtKind(query)); err != nil {
 		return nil, err
 	}
-	return e.ExecContext(ctx, query, args)
+	res, err := e.ExecContext(ctx, query, args)
+	if err == nil {
+		c.ctl.after()
+	}
+	return res, err
 }
 
 func (c *faultConn) QueryContext(ctx context.Context, query string, args []driver.NamedValue) (driver.Rows, error) {
@@ -183,7 +264,11 @@ func (c *faultConn) QueryContext(ctx context.Context, query string, args []drive
 	if err := c.ctl.before(stmtKind(query)); err != nil {
 		return nil, err
 	}
-	return q.QueryContext(ctx, query, args)
+	rows, err := q.QueryContext(ctx, query, args)
+	if err == nil {
+		c.ctl.after()
+	}
+	return rows, err
 }
 
 func (c *faultConn) PrepareContext(ctx context.Context, query string) (driver.Stmt, error) {
